@@ -164,7 +164,7 @@ class Gen:
                 ci = [r.random() < 0.5] if r.random() < 0.5 else []
                 return (["new", "Group", a] + ci if sp == "class" else ["call", "group", a] + ci), "general"
             if g < 0.93:
-                return ["new", "Backreference", r.choice(["g1", "g2", 1])], "general"
+                return ["new", "Backreference", r.choice(["g1", "g2", 1, 7, 12])], "general"
             return ["new", "Conditional", r.choice(["g1", "key"]), a] + ([self.operand()] if r.random() < 0.5 else []), "general"
         if k < 0.80:                                     # anchors
             an = r.choice(["MatchAtStart", "MatchAtEnd", "MatchAtLineStart", "MatchAtLineEnd"])
